@@ -158,6 +158,9 @@ func (g *Gen) GoType(t *Ty, depth int) *GT { return noByteSlices(g.goType(t, dep
 func noByteSlices(gt *GT) *GT {
 	for _, e := range gt.Elems {
 		noByteSlices(e)
+		if e.Name == "mset" { // map[X]struct{} only as the value bound to the column itself
+			e.Name = "slice"
+		}
 	}
 	if (gt.Name == "slice" || gt.Name == "array" || gt.Name == "mset") && (gt.Elems[0].Name == "k" || gt.Elems[0].Name == "nk") && gt.Elems[0].Kind == "uint8" {
 		gt.Elems[0] = &GT{Name: gt.Elems[0].Name, Kind: "uint16"}
@@ -483,8 +486,8 @@ func (g *Gen) Value(t *Ty, gt *GT) *Val {
 			return &Val{Tag: pre + "bnil"}
 		}
 		b := g.bytesVal()
-		if (t.Name == "uuid" || t.Name == "timeuuid") && g.chance(80) {
-			b = g.R.Bytes(16)
+		if t.Name == "uuid" || t.Name == "timeuuid" {
+			b = g.R.Bytes([]int{16, 16, 16, 16, 16, 16, 0, 15, 17, 32}[g.R.Intn(10)])
 		}
 		return &Val{Tag: pre + "b", Bytes: b}
 	case "bool", "nbool":
@@ -835,4 +838,17 @@ func (g *Gen) target(t *Ty, depth int, top bool) *GT {
 		return s
 	}
 	return g.scalarTarget(t.Name)
+}
+
+// CaseTyped: like Case, also returning the Go type the value was generated for (nil for a bare nil / unset).
+func (g *Gen) CaseTyped(depth int) (proto byte, t *Ty, gt *GT, v *Val) {
+	proto = byte(1 + g.R.Intn(5))
+	t = g.Ty(depth)
+	gt = g.GoType(t, depth)
+	if gt.Name == "mset" && t.Name != "list" && t.Name != "set" {
+		gt = &GT{Name: "slice", Elems: gt.Elems}
+	}
+	v = g.Value(t, gt)
+	Normalize(proto, t, v)
+	return
 }
